@@ -81,6 +81,9 @@ def judge(spec, kind, res):
     else:
         al = ["%s rc=%d\n%s" % (prop, rc, "\n".join(l for l in out.splitlines() if not l.startswith("KNOWN-FINDING"))[-1500:]) for prop, rc, out in results if rc != 0]
         if al:
+            if spec.get("known_limit"):
+                # a behaviour-preserving change the checks are documented not to follow (they fail closed): reported, not a self-test failure
+                return "known-limit", spec["known_limit"]
             return "alarm", "\n".join(al)
         return "silent", ""
 
